@@ -69,6 +69,7 @@ struct CbAwaiter : cocls::awaiter {
 struct World {
     cocls::future<int> fut;
     cocls::promise<int> *p = nullptr;   // heap object: alive until its destructor has returned
+    const void *p_owner_addr = nullptr;
     std::map<std::string, std::string> rkind, wkind;
     std::map<std::string, int> tid;          // thread name -> vsched id
     std::map<std::string, std::string> rres;
@@ -136,30 +137,31 @@ static std::string pend_of(World &w, const std::string &name, bool resolver) {
         return w.recs[name].done ? "done" : "parked";
     }
     const auto &e = w.sched.pending(t);
-    std::string f = e.func;
-    auto has = [&](const char *s) { return f.find(s) != std::string::npos; };
+    // classification by operation kind and by WHICH atomic object is touched (robust against renamed or
+    // restructured functions): the future's awaiter slot, the promise's owner pointer, anything else
+    const void *slot = &(w.fut.*FProbe::slot_mp());
+    const void *owner = w.p_owner_addr;
     switch (e.op) {
         case op_t::mark: return e.tag;
         case op_t::xchg:
-            if (has("::claim(")) return "claim";
-            if (has("resume_chain_set_ready")) return "swap";
+            if (e.obj == slot) return "swap";
+            if (e.obj == owner) return "claim";
             break;
         case op_t::load: case op_t::conv:
-            if (has("::~promise(")) return "dload";
-            if (has("::ready(")) return "check";
-            break;
+            if (e.obj == slot) return "check";
+            return "dload";                       // a promise's owner pointer (p itself or a moved-to promise)
         case op_t::store: case op_t::assign:
-            if (has("::wakeup(")) return "flagstore";
+            if (e.obj != slot && e.obj != owner) return "flagstore";
             break;
         case op_t::notify: return "notify";
         case op_t::cas:
-            if (has("subscribe_check_ready")) return "cas";
+            if (e.obj == slot) return "cas";
             break;
         case op_t::fence: return "fence";
         case op_t::wait: return "wait";
         default: break;
     }
-    return std::string("?") + cocls_verif::op_name(e.op) + "@" + f;
+    return std::string("?") + cocls_verif::op_name(e.op) + "@" + e.func;
 }
 
 static J project(World &w) {
@@ -247,6 +249,11 @@ static void run_one(const Scenario &sc, Reporter &rep, Explore *ex) {
     for (auto &kv : sc.hdr.at("R").m) { w.rkind[kv.first] = kv.second.s; w.rres[kv.first] = "none"; }
     for (auto &kv : sc.hdr.at("W").m) { w.wkind[kv.first] = kv.second.s; w.recs[kv.first]; }
     w.p = new cocls::promise<int>(w.fut.get_promise());
+    w.p_owner_addr = &((*w.p).*PProbe::owner_mp());
+    if (w.sched.record_motable) {
+        cocls_verif::motable::get().label(&(w.fut.*FProbe::slot_mp()), sizeof(void *), "future.slot");
+        cocls_verif::motable::get().label(w.p_owner_addr, sizeof(void *), "promise.owner");
+    }
     cocls::async<int> *fin = nullptr;
     std::optional<cocls::async<int>> fin_store;
     for (auto &kv : w.rkind) if (kv.second == "final") {
